@@ -147,6 +147,37 @@ func checkSigningWrite(c *Ctx) {
 	}
 	c.seeFn(funcName(fn))
 	pos := w.FnPos(fn)
+	// the commit-writing part may live in a same-package helper that Write calls on every success path
+	{
+		hasSK := func(f *ssa.Function) bool {
+			for _, cl := range Calls(f) {
+				if strings.HasSuffix(cl.Name, ".SigningKey") {
+					return true
+				}
+			}
+			return false
+		}
+		if !hasSK(fn) {
+			for _, h := range fnAndHelpers(fn, 2) {
+				if h == fn || !hasSK(h) {
+					continue
+				}
+				callsH := func(i ssa.Instruction) bool {
+					ci, ok := i.(ssa.CallInstruction)
+					if !ok {
+						return false
+					}
+					cal := ci.Common().StaticCallee()
+					return cal != nil && bodyOf(cal) == h
+				}
+				if avoid, _, _ := pathSearch(fn, nil, nil, isSuccessReturn, callsH, false); !avoid {
+					c.seeFn(funcName(h))
+					fn = h
+					break
+				}
+			}
+		}
+	}
 	var sk *Call
 	for _, cl := range Calls(fn) {
 		if strings.HasSuffix(cl.Name, ".SigningKey") {
